@@ -396,13 +396,11 @@ func (dn *dirNode) size() int64 {
 
 // fileNode
 
-// delete removes all information from the node, decrements the reference counter of the fileNode.
-// If there is no more references, the data is deleted.
+// delete decrements the reference counter of the fileNode.
+// The data stay available to the files still open on the node, as they do on a POSIX system;
+// they are reclaimed by the garbage collector when the last of them is gone.
 func (fn *fileNode) delete() {
 	fn.nlink--
-	if fn.nlink == 0 {
-		fn.data = nil
-	}
 }
 
 // fillStatFrom returns a MemInfo (implementation of fs.FileInfo) from a fileNode fn named name.
